@@ -44,6 +44,15 @@ def run(ctx):
     ok = ctx.check_theorems()
     if not ok:
         ctx.broken_obligation('Properties_C17.vo', getattr(ctx, 'broken', {}))
+    if os.path.exists(os.path.join(lib.COQ, 'Properties', 'Properties_C17c.v')):
+        # T5: flatcc_identifier.h conversions and the buffer-header acceptors of verifier.c regenerated from the clang AST
+        from . import c01c_util
+        okl, msg = c01c_util.regen_ident_leaves(ctx)
+        ctx.log('T5 identifier leaves: %s' % (msg if not okl else 'regenerated, Properties_C17c re-checked'))
+        if not okl:
+            w = c01c_util.LAST.get('witnesses') or []
+            if w: ctx.violation('leaf:' + w[0]['leaf'], msg, w[0])
+            else: ctx.broken_obligation('Properties_C17c.vo', dict(c01c_util.LAST, message=msg))
 
     # ---- build implementation side from the current tree
     gdir = os.path.join(ctx.bdir, 'gen'); os.makedirs(gdir, exist_ok=True)
@@ -81,7 +90,9 @@ def run(ctx):
             if target_found < (400 if ctx.thorough else 80):
                 names.append(nm); target_found += 1
     for nm in names:
-        add('name_hash', 'name ' + hx(nm + b'\0' + bytes(rng.randint(0, 255) for _ in range(rng.randint(0, 3)))))
+        tailb = b'\0' + bytes(rng.randint(0, 255) for _ in range(rng.randint(0, 3)))
+        add('name_hash', 'name ' + hx(nm + tailb))
+        add('name_identifier', 'idfromname ' + hx(nm + tailb))
     # ---- identifier conversions
     hashes = [0, 1, 255, 256, 65535, 65536, 0xffffff, 0x1000000, 0xffffffff, 0x534e4f4d, 0x80000000, 0x7fffffff]
     hashes += [rng.getrandbits(32) for _ in range(300)] + [fnv1a(n) for n in names[:200]]
@@ -218,6 +229,12 @@ def run(ctx):
             key = 'corr:%s' % klass
             detail = {'model_line': m, 'model': a, 'impl': b}
             # property-level oracle for hashes: FNV-1a reference
+            if klass == 'name_identifier':
+                nm = bytes.fromhex(m.split()[1]).split(b'\0')[0]
+                if fnv1a(nm).to_bytes(4, 'little').hex() != b:
+                    ctx.violation('name-identifier', 'flatbuffers_identifier_from_name(%r) = %s, the little-endian bytes of FNV-1a-32 of the name (zero mapped to the hash of the empty string) are %s'
+                                  % (nm, b, fnv1a(nm).to_bytes(4, 'little').hex()), detail)
+                    continue
             if klass == 'name_hash':
                 nm = bytes.fromhex(m.split()[1]).split(b'\0')[0]
                 if str(fnv1a(nm)) != b:
@@ -296,7 +313,7 @@ def run(ctx):
     from . import c17_typed
     c17_typed.typed_roots(ctx)
 
-    ctx.trusted = lib.DEFAULT_TRUSTED + ['translators/consts_probe.c (T1: error codes and sizes from /repo headers)']
+    ctx.trusted = lib.DEFAULT_TRUSTED + ['translators/cleaf_to_coq.py (T5: clang 14 -ast-dump=json of flatcc_identifier.h / verifier.c header functions -> coq/Generated/Leaf_ident.v; output must be proved equal to the hand model)', 'translators/consts_probe.c (T1: error codes and sizes from /repo headers)']
     ctx.assumptions = ['little-endian host', 'identifier strings are NUL-terminated C strings', 'uoffset_t is 32 bit (asserted by T1 constants)']
     ctx.finish_args = dict(
         rule='cases: names (lengths 1..64 incl. names searched to hash to small values / zero bytes), hash<->identifier conversions, '
